@@ -20,6 +20,20 @@ type requestStream struct {
 	reader          *bufio.Reader
 	totalBytesRead  int
 	chunkLeft       int
+	eof             bool
+}
+
+// drained reports whether the whole request body has been taken off the
+// connection, i.e. whether the next request starts right after it.
+func (rs *requestStream) drained() bool {
+	if rs.header.ContentLength() == -1 {
+		return rs.eof
+	}
+	n := rs.totalBytesRead
+	if rs.prefetchedBytes != nil && int(rs.prefetchedBytes.Size()) > n {
+		n = int(rs.prefetchedBytes.Size())
+	}
+	return n >= rs.header.ContentLength()
 }
 
 func (rs *requestStream) Read(p []byte) (int, error) {
@@ -38,6 +52,7 @@ func (rs *requestStream) Read(p []byte) (int, error) {
 				if err != nil && err != io.EOF {
 					return 0, err
 				}
+				rs.eof = true
 				return 0, io.EOF
 			}
 			rs.chunkLeft = chunkSize
@@ -98,6 +113,7 @@ func releaseRequestStream(rs *requestStream) {
 	rs.prefetchedBytes = nil
 	rs.totalBytesRead = 0
 	rs.chunkLeft = 0
+	rs.eof = false
 	rs.reader = nil
 	rs.header = nil
 	requestStreamPool.Put(rs)
